@@ -2859,14 +2859,17 @@ class Partitions(Expr):
                 and self.frame._has_partition_info
             )
         ):
-            operands = [
-                (
-                    Partitions(op, self.partitions)
-                    if (isinstance(op, Expr) and not self.frame._broadcast_dep(op))
-                    else op
-                )
-                for op in self.frame.operands
-            ]
+            from dask_expr._resample import BlockwiseDep
+
+            def _select(op):
+                if isinstance(op, Expr) and not self.frame._broadcast_dep(op):
+                    return Partitions(op, self.partitions)
+                if isinstance(op, BlockwiseDep):
+                    # one value per partition, looked up by position
+                    return BlockwiseDep([op.iterable[p] for p in self.partitions])
+                return op
+
+            operands = [_select(op) for op in self.frame.operands]
             return type(self.frame)(*operands)
         elif isinstance(self.frame, PartitionsFiltered):
             if self.frame._partitions:
